@@ -299,6 +299,47 @@ example : hoistOK (qAnd [qNot rx, .paren (qAnd [rx, qKind "r" ["A", "B"]]), qOr 
   ⟨rfl, rfl, rfl⟩
 example : hoistOK wNegKind = true ∧ hoistOK (qOr [qKind "r" ["A"], rx]) = false := ⟨rfl, rfl⟩
 
+/-! ### the guard is sharp: inside it Prepare preserves meaning (`prepare_preserves_eval`), and each way of leaving it
+has a separating valuation — these are the four `neo4j.ExpressionListRewriter:*` findings -/
+theorem prepare_guard_sharp :
+    (∀ (v : Val) (e : Expr) h w, valid e = true → hoistOK e = true → prep false false true e = some (h, w) →
+      meaning v (flattenKinds h) w = eval v e) ∧
+    -- lifted out of OR
+    (hoistOK (qOr [qKind "r" ["A"], rx]) = false ∧
+      ∃ v : Val, meaning v ["A"] (some (.paren rx)) ≠ eval v (qOr [qKind "r" ["A"], rx])) ∧
+    -- lifted out of XOR
+    (hoistOK (qXor [qKind "r" ["A"], rx]) = false ∧
+      ∃ v : Val, meaning v ["A"] (some (.join .xor [rx])) ≠ eval v (qXor [qKind "r" ["A"], rx])) ∧
+    -- two conjunct matchers merged into one any-of list
+    (hoistOK (qAnd [qKind "r" ["A"], qKind "r" ["B"], rx]) = false ∧
+      ∃ v : Val, meaning v ["A", "B"] (some (.join .and [rx])) ≠ eval v (qAnd [qKind "r" ["A"], qKind "r" ["B"], rx])) ∧
+    -- all-of hoisted as any-of
+    (hoistOK (qAnd [.kinds "r" ["A", "B"] true, rx]) = false ∧
+      ∃ v : Val, meaning v ["A", "B"] (some (.join .and [rx])) ≠ eval v (qAnd [.kinds "r" ["A", "B"] true, rx])) := by
+  refine ⟨fun v e h w hv hs hp => prepare_preserves_eval v e h w hv hs hp, ⟨rfl, ?_⟩, ⟨rfl, ?_⟩, ⟨rfl, ?_⟩, ⟨rfl, ?_⟩⟩
+  · obtain ⟨_, v, h1, h2⟩ := hoist_from_or_changes_meaning
+    exact ⟨v, by rw [h1, h2]; simp⟩
+  · obtain ⟨_, v, h1, h2⟩ := hoist_from_xor_changes_meaning
+    exact ⟨v, by rw [h1, h2]; simp⟩
+  · obtain ⟨_, v, h1, h2⟩ := two_hoisted_conjuncts_change_meaning
+    exact ⟨v, by rw [h1, h2]; simp⟩
+  · obtain ⟨_, v, h1, h2⟩ := hoist_all_of_changes_meaning
+    exact ⟨v, by rw [h1, h2]; simp⟩
+
+/-- PROPOSAL hooks/C10-fix8 (`prepareGuarded`): a Prepare that refuses outside the guard never changes the meaning (string
+negation guard aside); the four shapes above are refused, hoistable shapes are prepared as today. -/
+theorem prepare_guarded_preserves_eval (v : Val) (e : Expr) (hv : valid e = true) (ks : List String) (w : Option Expr) (h : List (List String))
+    (hg : hoistOK e = true) (hp : prep false false true e = some (h, w)) (hk : ks = flattenKinds h) :
+    meaning v ks w = eval v e := by
+  subst hk; exact prepare_preserves_eval v e h w hv hg hp
+
+theorem prepare_guarded_refuses :
+    prepareGuarded (qOr [qKind "r" ["A"], rx]) = none ∧ prepareGuarded (qXor [qKind "r" ["A"], rx]) = none ∧
+    prepareGuarded (qAnd [qKind "r" ["A"], qKind "r" ["B"], rx]) = none ∧ prepareGuarded (qAnd [.kinds "r" ["A", "B"] true, rx]) = none ∧
+    prepareGuarded (qAnd [qNot rx, .paren (qAnd [rx, qKind "r" ["A", "B"]])]) = prepare (qAnd [qNot rx, .paren (qAnd [rx, qKind "r" ["A", "B"]])]) ∧
+    prepareGuarded wNegKind = prepare wNegKind := by
+  refine ⟨rfl, rfl, rfl, rfl, rfl, rfl⟩
+
 /-! ### PROPOSAL, not the code that exists: Prepare with hooks/C10-fix7 (`prepFix7`) needs no hypothesis beyond well-formedness.
 The patch was not taken (a relationship kind matcher left in the WHERE clause is rejected by some Neo4j versions), so these
 theorems describe the repair, and `prepare_preserves_eval` above (with `hoistOK`) describes /repo. -/
@@ -372,7 +413,7 @@ def qExample : Query :=
 
 example : validQ qExample = true ∧ cntQ qExample = 4 := ⟨rfl, rfl⟩
 example : paramToks (emitQ (liftQ 0 qExample)) = ["p0", "p1", "p2", "p3"] := by rfl
-example : ((prepareQ false qExample).map (fun q => q.pattern)) =
+example : ((prepareQ .live qExample).map (fun q => q.pattern)) =
     some [.node (some "s") [] none, .rel (some "r") ["A", "B"] none, .node none [] none] := by rfl
 
 /-! ### non-vacuity -/
